@@ -415,26 +415,36 @@ impl FileSpec {
                 }
             })
             .filter(|path| {
-                // infix filter must pass
-                // without suffix, a dot belongs to the name, it does not separate an extension
-                let stem = if o_suffix.is_some() {
-                    path.file_stem()
-                } else {
-                    path.file_name()
+                // the name must consist of exactly the fixed name part, the infix (separated by
+                // an underscore, and optionally with a restart-extension), and the suffix(es)
+                let name = path.file_name().unwrap(/* CANNOT FAIL*/).to_string_lossy();
+                let mut stem: &str = &name;
+                if o_suffix == Some("gz") && self.o_suffix.as_deref() != Some("gz") {
+                    stem = stem.strip_suffix(".gz").unwrap_or(stem);
                 }
-                .unwrap(/* CANNOT FAIL*/)
-                .to_string_lossy();
-                let infix_start = if fixed_name_part.is_empty() {
-                    0
+                if let Some(suffix) = &self.o_suffix {
+                    match stem
+                        .strip_suffix(suffix.as_str())
+                        .and_then(|s| s.strip_suffix('.'))
+                    {
+                        Some(s) => stem = s,
+                        None => return false,
+                    }
+                }
+                let maybe_infix = if fixed_name_part.is_empty() {
+                    Some(stem)
                 } else {
-                    fixed_name_part.len() + 1 // underscore at the end
+                    stem.strip_prefix(fixed_name_part.as_str())
+                        .and_then(|s| s.strip_prefix('_'))
                 };
-                if stem.len() <= infix_start {
-                    return false;
-                }
-                let maybe_infix = &stem[infix_start..];
-                let end = maybe_infix.find('.').unwrap_or(maybe_infix.len());
-                infix_filter.filter_infix(&maybe_infix[..end])
+                maybe_infix.is_some_and(|maybe_infix| {
+                    let (infix, o_extension) = match maybe_infix.split_once('.') {
+                        Some((infix, extension)) => (infix, Some(extension)),
+                        None => (maybe_infix, None),
+                    };
+                    o_extension.map_or(true, is_restart_extension)
+                        && infix_filter.filter_infix(infix)
+                })
             })
             .map(PathBuf::clone)
             .collect::<Vec<PathBuf>>()
@@ -454,6 +464,13 @@ impl FileSpec {
     pub(crate) fn get_timestamp(&self) -> Option<String> {
         self.get_start_timestamp()
     }
+}
+
+// "restart-" followed by exactly four digits
+fn is_restart_extension(extension: &str) -> bool {
+    extension
+        .strip_prefix("restart-")
+        .is_some_and(|number| number.len() == 4 && number.bytes().all(|b| b.is_ascii_digit()))
 }
 
 fn append_underscore_if_not_empty(filename: &mut String) {
